@@ -93,10 +93,13 @@ func (cp *CollectingProcess) startUDPServer() {
 			klog.Error(err)
 			return
 		}
+		// Add to the wait group before the address is published: callers wait for the address
+		// to know that the process is ready, and may call Stop (which waits on the group) right
+		// away.
+		cp.wg.Add(1)
 		cp.updateAddress(conn.LocalAddr())
 		klog.Infof("Start UDP collecting process on %s", cp.netAddress)
 		defer conn.Close()
-		cp.wg.Add(1)
 		go func() {
 			defer cp.wg.Done()
 			for {
